@@ -94,7 +94,10 @@ def make_region(spec):
     if shape == 'rectangle':
         return K('Rectangle')(c, q(1.5 * s), q(s), angle=ang, **kw)
     if shape == 'polygon':
-        return K('Polygon')(verts([(0, 0), (1, 0.125), (0.75, 1), (-0.25, 0.5)]), **kw)
+        pts = [(0, 0), (1, 0.125), (0.75, 1), (-0.25, 0.5)]
+        if spec.get('closed'):
+            pts = pts + [pts[0]]        # a closed ring: the last vertex repeats the first, bit for bit
+        return K('Polygon')(verts(pts), **kw)
     if shape == 'circleannulus':
         return K('CircleAnnulus')(c, q(s), q(2 * s), **kw)
     if shape == 'ellipseannulus':
@@ -327,8 +330,8 @@ def _visual_expect(res, case, orig, back, text):
 
 
 # ---------------------------------------------------------- meta vocabulary --
-TEXTS = ['plain', '', 'sky background level', 'NGC 1234\u2028core \x85 n', 'page1\x0cpage2', 'with space', 'semi;colon', 'hash#tag', 'eq=sign', "it's", 'say "hi"', 'MiXed Case 42']
-TAGSETS = [None, ['g1'], ['group 1', 'Group=2#x']]
+TEXTS = ['plain', '', 'sky background level', 'A || B', 'NGC 1234\u2028core \x85 n', 'page1\x0cpage2', 'with space', 'semi;colon', 'hash#tag', 'eq=sign', "it's", 'say "hi"', 'MiXed Case 42']
+TAGSETS = [None, ['g1'], ['group 1', 'Group=2#x'], ['grp||1']]
 INCLUDES = ['absent', True, False, 1, 0]
 VISUALS = [
     {}, {'color': 'red'}, {'color': '#ff8800', 'linewidth': 3}, {'edgecolor': 'blue', 'facecolor': 'blue', 'fill': True},
@@ -615,6 +618,11 @@ def geom_cases(tier):
                         for p in precs:
                             if feasible(spec, p):
                                 out.append([spec, p])
+                        if shape == 'polygon' and size == sizes[0]:
+                            sc = dict(spec, closed=True)
+                            for p in (precs[1], 8):
+                                if feasible(sc, p):
+                                    out.append([sc, p])
                         if frame != 'image' and shape not in ('point', 'text', 'line', 'polygon') and pos == poss[0] and ang == (angles if has_angle else [0.0])[0]:
                             # angular sizes given as Angle objects instead of plain Quantities
                             sa = dict(spec, qtype='angle')
